@@ -48,7 +48,11 @@ type Input struct {
 	FallbackFee string      `json:"fallback_fee"`
 	FallbackGas uint64      `json:"fallback_gas"`
 	Validators  []Validator `json:"validators"`
-	Tags        []string    `json:"tags,omitempty"`
+	// the history on one block relay service instance (service_test.go): documents a refresh may
+	// serve besides doc, and the operations
+	MoreDocs []string `json:"more_docs,omitempty"`
+	History  []Op     `json:"history,omitempty"`
+	Tags     []string `json:"tags,omitempty"`
 }
 
 // ---------------------------------------------------------------------------------------------
@@ -814,6 +818,7 @@ type observed struct {
 	OK2        bool     `json:"unmarshal_again_ok"`
 	Err2       string   `json:"unmarshal_again_error,omitempty"`
 	Out2       []string `json:"lookups_again"`
+	History    histObserved `json:"history"`
 	nontrivial bool
 }
 
@@ -899,10 +904,29 @@ func run(in Input, id uint64) (term string, obs observed) {
 			obs.Err2 = "marshal: " + err.Error()
 		}
 	}
-	// validators: which of the document's (and the marshalled document's) patterns match the name
-	var vals []string
-	for _, v := range in.Validators {
-		name := v.specName()
+	// the other documents of the history (their patterns join the tables before the validators are printed)
+	docTerms := []string{doc}
+	for _, d := range in.MoreDocs {
+		docTerms = append(docTerms, t.tree([]byte(d)))
+	}
+	docRef := func(k int) string {
+		if k <= 0 || k >= len(docTerms) {
+			return "d0"
+		}
+		return fmt.Sprintf("d%d", k)
+	}
+	usedNil := false
+	valRef := func(i int, noAccount bool) string {
+		if noAccount {
+			usedNil = true
+			return fmt.Sprintf("(without_account v%d nil_accts)", i)
+		}
+		return fmt.Sprintf("v%d", i)
+	}
+	hops, hanswers, hobs := t.runHistory(in, fee, docRef, valRef)
+	obs.History = hobs
+	// validators: which of the documents' (and the marshalled document's) patterns match the name
+	acctsOf := func(name string) string {
 		var ids []uint64
 		for id, re := range t.compiled {
 			if re.MatchString(name) {
@@ -914,13 +938,20 @@ func run(in Input, id uint64) (term string, obs observed) {
 		for i, x := range ids {
 			strs[i] = N(x)
 		}
+		return List(strs)
+	}
+	var vals, valNames []string
+	for i, v := range in.Validators {
 		key := N(0)
 		if b, ok := hexBytes(v.Pubkey, 48); ok {
 			key = t.bytesN(b)
 		}
-		vals = append(vals, Record("v_key", key, "v_accts", List(strs)))
+		vals = append(vals, Record("v_key", key, "v_accts", acctsOf(v.specName())))
+		valNames = append(valNames, fmt.Sprintf("v%d", i))
 	}
-	// identical output lists are printed once and shared (they are elaborated once by coqc)
+	_ = usedNil
+	// identical output lists are printed once and shared (they are elaborated once by coqc); so are
+	// the documents, the validators and the distinct answers of the history
 	out1, shown, out2 := List(obs.Out1), List(obs.Shown), List(obs.Out2)
 	shownRef, out2Ref := shown, out2
 	if shown == out1 {
@@ -929,9 +960,35 @@ func run(in Input, id uint64) (term string, obs observed) {
 	if out2 == out1 {
 		out2Ref = "o1"
 	}
-	term = "(let o1 := " + out1 + " in " + Record("c_id", N(id), "c_doc", doc, "c_fbfee", t.bytesN(fee[:]), "c_fbgas", N(in.FallbackGas),
-		"c_vals", List(vals), "c_ok1", Bool(obs.OK1), "c_parsed", parsed, "c_out1", "o1", "c_shown", shownRef,
-		"c_marshalled", marshalled, "c_ok2", Bool(obs.OK2), "c_out2", out2Ref, "c_v1_per_value", Bool(v1PerValue())) + ")"
+	var lets strings.Builder
+	for k, d := range docTerms {
+		fmt.Fprintf(&lets, "let d%d : json := %s in ", k, d)
+	}
+	for i, v := range vals {
+		fmt.Fprintf(&lets, "let v%d : validator := %s in ", i, v)
+	}
+	// the patterns that match the name of a nil account
+	fmt.Fprintf(&lets, "let nil_accts : list N := %s in ", acctsOf("<unknown>/<unknown>"))
+	fmt.Fprintf(&lets, "let without_account := (fun (v : validator) (a : list N) => Build_validator (v_key v) a) in ")
+	answerNames := map[string]string{}
+	var hrefs []string
+	for _, a := range hanswers {
+		name, ok := answerNames[a]
+		if !ok {
+			if len(a) < 12 { // OErr, OPanic
+				name = a
+			} else {
+				name = fmt.Sprintf("h%d", len(answerNames))
+				fmt.Fprintf(&lets, "let %s : outcome := %s in ", name, a)
+			}
+			answerNames[a] = name
+		}
+		hrefs = append(hrefs, name)
+	}
+	term = "(" + lets.String() + "let o1 := " + out1 + " in " + Record("c_id", N(id), "c_doc", "d0", "c_fbfee", t.bytesN(fee[:]), "c_fbgas", N(in.FallbackGas),
+		"c_vals", List(valNames), "c_ok1", Bool(obs.OK1), "c_parsed", parsed, "c_out1", "o1", "c_shown", shownRef,
+		"c_marshalled", marshalled, "c_ok2", Bool(obs.OK2), "c_out2", out2Ref,
+		"c_ops", List(hops), "c_hist", List(hrefs), "c_v1_per_value", Bool(v1PerValue())) + ")"
 	return term, obs
 }
 
@@ -976,7 +1033,19 @@ func v1PerValue() bool {
 // docs/execlayer.md and the code's whole-entry selection can differ (known finding
 // C10-v1-entry-not-fieldwise; computed from the input only).
 func v1Fieldwise(in Input) bool {
-	dec := json.NewDecoder(strings.NewReader(in.Doc))
+	if v1FieldwiseDoc(in.Doc, in.Validators) {
+		return true
+	}
+	for _, d := range in.MoreDocs {
+		if v1FieldwiseDoc(d, in.Validators) {
+			return true
+		}
+	}
+	return false
+}
+
+func v1FieldwiseDoc(text string, validators []Validator) bool {
+	dec := json.NewDecoder(strings.NewReader(text))
 	dec.UseNumber()
 	var doc map[string]any
 	if err := dec.Decode(&doc); err != nil {
@@ -997,7 +1066,7 @@ func v1Fieldwise(in Input) bool {
 		n, err := strconv.ParseUint(s, 10, 64)
 		return err == nil && n != 0
 	}
-	for _, v := range in.Validators {
+	for _, v := range validators {
 		want, ok := hexBytes(v.Pubkey, 48)
 		if !ok {
 			continue
@@ -1106,7 +1175,7 @@ func TestC10(t *testing.T) {
 				col.Count("lookup:ok")
 			}
 		}
-		key, _ := json.Marshal([]any{in.Doc, in.FallbackFee, in.FallbackGas, in.Validators})
+		key, _ := json.Marshal([]any{in.Doc, in.FallbackFee, in.FallbackGas, in.Validators, in.MoreDocs, in.History})
 		col.Add(Case{Term: term, Key: string(key), Nontrivial: obs.nontrivial, Tags: in.Tags,
 			Sample: map[string]any{"input": in, "observed": obs}})
 	}
